@@ -455,6 +455,9 @@ pub(super) mod http2 {
     }
 }
 
+#[cfg(all(test, feature = "client", feature = "verif-hooks"))]
+mod verif_replays;
+
 #[cfg(test)]
 #[allow(dead_code)]
 mod tests {
